@@ -13,7 +13,9 @@ import (
 
 // VerifCrypto is the ideal signature scheme used by all harnesses (DESIGN §4.1):
 // Sign(pk,msg) = H_sig(pk ‖ msg); an aggregate over signers S of msg is
-// H_agg(Sign(pk_i,msg) for i in S, in mask order).  H is verifsym.Hash
+// H_agg(all keys of the committee ‖ Sign(pk_i,msg) for i in S, in mask order)
+// — like BLS with BDN coefficients, an aggregate is bound to the whole key
+// list it was made for, not only to the signers' keys.  H is verifsym.Hash
 // (uninterpreted + injective on symbolic data, sha256 natively).
 type VerifCrypto struct{}
 
@@ -59,7 +61,7 @@ func (a *verifAggregate) Aggregate(mask []int, sigs [][]byte) ([]byte, error) {
 			return nil, errors.New("verif: signer index out of range")
 		}
 	}
-	return sym.Hash("agg", verifLP(sigs...)), nil
+	return sym.Hash("agg", verifLP(append([][]byte{verifKeySet(a.keys)}, sigs...)...)), nil
 }
 
 func (a *verifAggregate) VerifyAggregate(mask []int, msg, sig []byte) error {
@@ -70,7 +72,7 @@ func (a *verifAggregate) VerifyAggregate(mask []int, msg, sig []byte) error {
 		}
 		sigs[k] = VerifSign(a.keys[i], msg)
 	}
-	if !bytes.Equal(sig, sym.Hash("agg", verifLP(sigs...))) {
+	if !bytes.Equal(sig, sym.Hash("agg", verifLP(append([][]byte{verifKeySet(a.keys)}, sigs...)...))) {
 		return errors.New("verif: invalid aggregate signature")
 	}
 	return nil
@@ -82,7 +84,16 @@ func VerifAggregateSig(keys []PubKey, mask []int, msg []byte) []byte {
 	for k, i := range mask {
 		sigs[k] = VerifSign(keys[i], msg)
 	}
-	return sym.Hash("agg", verifLP(sigs...))
+	return sym.Hash("agg", verifLP(append([][]byte{verifKeySet(keys)}, sigs...)...))
+}
+
+// verifKeySet: the key list an aggregate is bound to.
+func verifKeySet(keys []PubKey) []byte {
+	parts := make([][]byte, len(keys))
+	for i, k := range keys {
+		parts[i] = k
+	}
+	return verifLP(parts...)
 }
 
 // ---- concrete chain universe shared by harnesses ----
